@@ -288,3 +288,11 @@ func (fr *Frame) obligeLockPre(lp *Contract, fn *ssa.Function, args []Val, st *S
 			Guard: g, Goal: goal, Pos: pos, Src: "requires of " + lp.FuncName + ": " + r.Src, Tags: map[string]bool{"C25": true}})
 	}
 }
+
+// implementsTerm: the non-nil interface value v has a dynamic type that implements interface type it.
+func (c *Ctx) implementsTerm(v *Term, it types.Type) *Term {
+	c.declareFun("itag", []Sort{SInt}, SInt)
+	fn := "impl!" + typeName(it)
+	c.declareFun(fn, []Sort{SInt}, SBool)
+	return mk(SBool, fmt.Sprintf("(and (not (= %s 0)) (%s (itag %s)))", v.S, fn, v.S))
+}
